@@ -387,6 +387,14 @@ def classes_of(c):
     return out
 
 
+def OPTIMIZED_SHARDS(tier):
+    """the generated cases once more in interpreters started with -O, half of them also under an ASCII locale with UTF-8 mode switched off
+    (LC_ALL=C, PYTHONUTF8=0, PYTHONCOERCECLOCALE=0): conversions that are defined in terms of UTF-8 must not follow the locale"""
+    ascii_locale = {"LC_ALL": "C", "LANG": "C", "PYTHONUTF8": "0", "PYTHONCOERCECLOCALE": "0"}
+    hyps = [s for s in shards(tier) if s.get("kind") == "hyp"]
+    return [dict(s, _scale=0.3, **({"_env": ascii_locale} if i % 2 == 0 else {})) for i, s in enumerate(hyps)]
+
+
 def shards(tier):
     out = [{"kind": "hyp", "i": i} for i in range(8 if tier == "quick" else 15)]
     out.append({"kind": "grid"})
